@@ -17,6 +17,39 @@ def hexToString (h : String) : Option String :=
 /-- equality of decimals as the user sees it (value), safe for huge scales -/
 def sameValue (x y : Dec) : Bool := C04.safeValueEq x y
 
+/-- beyond the configured limit? (`0` switches the limit off) -/
+def overLimit (cfg : Config) (r : Dec) : Bool := cfg.serdeScaleLimit > 0 && r.scale.natAbs > cfg.serdeScaleLimit
+
+def jsonnumSer (cfg : Config) (a impl : String) : Verdict :=
+    -- impl: <number text or err>|<read back through json_num::deserialize>
+    match parseDec? a, impl.splitOn "|" with
+    | some a, [text, back] =>
+      let mt := Serde.jsonNumText cfg npl a
+      let valid := Serde.isJsonNumber mt
+      let mtext := if valid then C04.str mt else "err"
+      let mback := if valid then C05.render (Serde.jsonNumDeserialize cfg (C04.bytesOf (C04.str mt))) else "err"
+      -- the property: serialising then deserialising yields an equal decimal (within the scale limit)
+      let rt : Bool := match Spec.Numeral.specParse (C04.bytesOf text) with
+        | some r => if overLimit cfg r then back == "err" else (sameValue r a && back == C05.render (some r))
+        | none => false
+      { model := mtext ++ "|" ++ mback, mi := mtext == text && mback == back, si := rt,
+        tag := "jsonnum_ser" ++ (if a.int == 0 && a.scale < 0 then ":zero-negscale" else "")
+          ++ (if cfg.serdeScaleLimit == cfgD.serdeScaleLimit then "" else ":limit-" ++ toString cfg.serdeScaleLimit), trivial := false }
+    | _, _ => badInput "jsonnum_ser"
+
+def jsonnumDe (cfg : Config) (h impl : String) : Verdict :=
+    match hexToString h with
+    | some s =>
+      let valid := Serde.isJsonNumber s.toList
+      let m := if valid then C05.render (Serde.jsonNumDeserialize cfg (C04.bytesOf s)) else "err"
+      let sp := if valid then
+          (match Spec.Numeral.specParse (C04.bytesOf s) with
+            | some r => if overLimit cfg r then "err" else C05.render (some r)
+            | none => "err") else "err"
+      { model := m, mi := m == impl, si := sp == impl, sm := m == sp,
+        tag := "jsonnum_de" ++ (if cfg.serdeScaleLimit == cfgD.serdeScaleLimit then "" else ":limit-" ++ toString cfg.serdeScaleLimit) }
+    | none => badInput "jsonnum_de hex"
+
 def handle (op : String) (args : List String) (impl : String) : Verdict :=
   match op, args with
   | "ser_str", [a] =>
@@ -45,32 +78,17 @@ def handle (op : String) (args : List String) (impl : String) : Verdict :=
       let sp := if valid then C05.render (Spec.Numeral.specParse (C04.bytesOf s)) else "err"
       { model := m, mi := m == impl, si := sp == impl, sm := m == sp, tag := "de_num:" ++ (if valid then "json" else "notjson") }
     | none => badInput "de_num hex"
-  | "jsonnum_ser", [a] =>
-    -- impl: <number text or err>|<read back through json_num::deserialize>
-    match parseDec? a, impl.splitOn "|" with
-    | some a, [text, back] =>
-      let mt := Serde.jsonNumText cfgD npl a
-      let valid := Serde.isJsonNumber mt
-      let mtext := if valid then C04.str mt else "err"
-      let mback := if valid then C05.render (Serde.jsonNumDeserialize cfgD (C04.bytesOf (C04.str mt))) else "err"
-      -- the property: serialising then deserialising yields an equal decimal (within the scale limit)
-      let rt : Bool := match Spec.Numeral.specParse (C04.bytesOf text) with
-        | some r => if r.scale.natAbs > cfgD.serdeScaleLimit then back == "err" else (sameValue r a && back == C05.render (some r))
-        | none => false
-      { model := mtext ++ "|" ++ mback, mi := mtext == text && mback == back, si := rt,
-        tag := "jsonnum_ser" ++ (if a.int == 0 && a.scale < 0 then ":zero-negscale" else ""), trivial := false }
-    | _, _ => badInput "jsonnum_ser"
-  | "jsonnum_de", [h] =>
-    match hexToString h with
-    | some s =>
-      let valid := Serde.isJsonNumber s.toList
-      let m := if valid then C05.render (Serde.jsonNumDeserialize cfgD (C04.bytesOf s)) else "err"
-      let sp := if valid then
-          (match Spec.Numeral.specParse (C04.bytesOf s) with
-            | some r => if r.scale.natAbs > cfgD.serdeScaleLimit then "err" else C05.render (some r)
-            | none => "err") else "err"
-      { model := m, mi := m == impl, si := sp == impl, sm := m == sp, tag := "jsonnum_de" }
-    | none => badInput "jsonnum_de hex"
+  | "jsonnum_ser", [a] => jsonnumSer cfgD a impl
+  | "jsonnum_ser", [a, lim] =>
+    -- a build configured with another scale limit (0 = no limit); the limit travels with the line
+    (match parseNat? lim with
+     | some l => jsonnumSer { cfgD with serdeScaleLimit := l } a impl
+     | none => badInput "jsonnum_ser limit")
+  | "jsonnum_de", [h] => jsonnumDe cfgD h impl
+  | "jsonnum_de", [h, lim] =>
+    (match parseNat? lim with
+     | some l => jsonnumDe { cfgD with serdeScaleLimit := l } h impl
+     | none => badInput "jsonnum_de limit")
   | "jsonopt_ser", [a] =>
     if a == "null" then { model := "null|none", mi := impl == "null|none", si := impl == "null|none", tag := "jsonopt_ser:null" }
     else match parseDec? a, impl.splitOn "|" with
